@@ -199,9 +199,15 @@ fn c19(args: &Args, t0: Instant) -> i32 {
             for j in spec.jobs.iter_mut().filter(|j| !(keep_single && j.program.threads.len() == 1)) {
                 j.bounds.iter_mut().for_each(|b| *b = (*b).min(1));
             }
-            spec.rule = format!("[preemption bounds capped at 1{}] {}", if keep_single { " for the multi-client programs" } else { "" }, spec.rule);
+            // (the wait-vs-close/clear termination shapes explode on the async flavour: bound 0 here,
+            // their sync twins and the thorough tier run them at the full bounds)
+            for j in spec.jobs.iter_mut().filter(|j| j.tag == "c10-term") {
+                j.bounds.iter_mut().for_each(|b| *b = 0);
+            }
+            spec.rule = format!("[preemption bounds capped at 1{}] {}", if keep_single { " for the multi-client programs, 0 for the c10-term shapes" } else { "" }, spec.rule);
         }
-        let mut o = spec_outcome(spec, args, t0, if quick { if heavy { 2 * budget } else { budget } } else { args.secs / 16 });
+        // (the barrier corpus keeps the bounds of its single-client programs: three shares)
+        let mut o = spec_outcome(spec, args, t0, if quick { if *name == "C10" { 3 * budget } else if heavy { 2 * budget } else { budget } } else { args.secs / 16 });
         o.property = format!("C19-async-{}", name);
         parts.push(o);
     }
